@@ -196,7 +196,7 @@ let rest_after (line : string) (n : int) : string =
 (* S key user pass crc ct st rt rbuf level sec nsec mode | conn / conn ... | call ; call ... *)
 let parse_reaction (s : string) : M.reaction =
   if s = "s" then M.RAnswer ([], false)
-  else if s = "wf" then M.RWriteFail
+  else if s = "wf" || (String.length s > 2 && String.sub s 0 2 = "ws") then M.RWriteFail   (* ws<k>: a partial write that ran into the deadline *)
   else begin
     let parts = split_on_string_keep ":" s in
     let pieces = match parts with
